@@ -508,6 +508,8 @@ def gen_long(ctx):
     for tail_plan in (["refuse"] * 2, ["blackhole"], ["bad_sig", "close_m2"], ["garbage"]):
         yield {"hosts": ["10.0.0.5"], "plan": tail_plan, "tail": tail_plan[-1], "horizon": 7200}
     yield {"hosts": ["10.0.0.5", "10.0.0.6"], "per_host": {"10.0.0.5": "wrong_id", "10.0.0.6": "wrong_id"}, "horizon": 7200}
+    # an outage of two days: thousands of consecutive failures of ONE connector run (whatever the delay is computed from)
+    yield {"hosts": ["10.0.0.5"], "plan": ["refuse"], "tail": "refuse", "horizon": 48 * 3600}
 
 
 async def run_one(ctx, desc) -> None:
